@@ -33,6 +33,10 @@ fn main() {
         };
         std::process::exit(code);
     }
+    if args[1] == "--quadtest" {
+        println!("quadrature self-test: max relative error {:e}", special::quadrature_self_test());
+        return;
+    }
     if args[1] == "--gamma" {
         let a: f64 = args[2].parse().unwrap();
         let p: f64 = args[3].parse().unwrap();
